@@ -18,7 +18,6 @@ import (
 	"github.com/relab/gorums"
 	"google.golang.org/grpc"
 	"google.golang.org/grpc/backoff"
-	"google.golang.org/grpc/credentials/insecure"
 )
 
 type serveChild struct {
@@ -208,7 +207,7 @@ func runCloseCase(e *Env, idx int, c CCase) {
 		nodeMap[addrs[j]] = ids[j]
 	}
 	bk := backoff.Config{BaseDelay: 3 * time.Second, Multiplier: 1, Jitter: 0, MaxDelay: 3 * time.Second}
-	dialOpts := []grpc.DialOption{grpc.WithTransportCredentials(insecure.NewCredentials())}
+	dialOpts := h.DialOpts()
 	if c.Block {
 		dialOpts = append(dialOpts, grpc.WithBlock())
 	}
